@@ -198,7 +198,7 @@ func Explore(sc *Scenario, maxBound, maxExecs int, deadline time.Time) *Result {
 				if i >= len(prefix) {
 					for alt := 1; alt < len(p.Enabled); alt++ {
 						c := pre
-						if p.CurEnabled {
+						if p.CurEnabled && !p.Free {
 							c++
 						}
 						if c > bound {
@@ -210,7 +210,7 @@ func Explore(sc *Scenario, maxBound, maxExecs int, deadline time.Time) *Result {
 						}
 					}
 				}
-				if p.Chosen > 0 && p.CurEnabled {
+				if p.Chosen > 0 && p.CurEnabled && !p.Free {
 					pre++
 				}
 			}
@@ -247,7 +247,7 @@ func RenderSchedule(s *vcore.Sched) string {
 			continue
 		}
 		mark := ""
-		if p.Chosen > 0 && p.CurEnabled {
+		if p.Chosen > 0 && p.CurEnabled && !p.Free {
 			mark = "!"
 		}
 		parts = append(parts, fmt.Sprintf("T%d@%s->T%d%s", p.Cur, p.Label, p.Enabled[p.Chosen], mark))
